@@ -19,8 +19,8 @@ RULES = {
     'E6': contracts.rule_E6, 'E7': contracts.rule_E7, 'D2': contracts.rule_D2, 'E9': contracts.rule_E9, 'E4': contracts.rule_E4,
     'E10': contracts.rule_E10, 'E11': contracts.rule_E11, 'OPT': contracts.rule_OPT, 'OPTDEP': contracts.rule_OPTDEP, 'EQ1': contracts.rule_EQ1,
     'C': stream.rule_C, 'POSW': stream.rule_POSW, 'B1': stream.rule_B1, 'POST': stream.rule_POST, 'RB': stream.rule_RB, 'NOMOVE': stream.rule_NOMOVE,
-    'I': dims.rule_I, 'B3': dims.rule_B3, 'N2a': dims.rule_N2a,
-    'B2': mutate.rule_B2, 'WB': mutate.rule_WB, 'N1': mutate.rule_N1, 'N2': mutate.rule_N2, 'N5': mutate.rule_N5,
+    'I': dims.rule_I, 'B3': dims.rule_B3, 'N2a': dims.rule_N2a, 'IDX': dims.rule_IDX, 'TY1': dims.rule_TY1,
+    'B2': mutate.rule_B2, 'WB': mutate.rule_WB, 'N1': mutate.rule_N1, 'N2': mutate.rule_N2, 'N5': mutate.rule_N5, 'D5': mutate.rule_D5,
     'E5': ingest.rule_E5, 'CHOKE': ingest.rule_CHOKE, 'LV': ingest.rule_LV,
     'G2': mode.rule_G2, 'G3': mode.rule_G3, 'E8': mode.rule_E8,
     'H4': misc.rule_H4, 'ESC': misc.rule_ESC, 'DELEG': misc.rule_DELEG, 'PK': misc.rule_PK,
@@ -233,7 +233,7 @@ _p('C03', ['B2', 'WB', 'N1', 'B1', 'E2', 'E11', 'OPT'],
                "for write loops from the validated window, dominating-guard facts for helper asserts.",
    floors={'B2': 40})
 
-_p('C14', ['I', 'B3', 'B2', 'N2a', 'A9'],
+_p('C14', ['I', 'IDX', 'TY1', 'B3', 'B2', 'N2a', 'A9'],
    decided=["item i occupies bits [i*w, (i+1)*w) with w in bits for every fixed-length dtype incl. byte-multiplier ones: "
             "bit counts (len of data, Dtype.bitlength, itemsize), unit counts (Dtype.length) and item counts are never "
             "mixed in array_.py (three-sorted dimension analysis of every arithmetic, comparison, slice bound, position)",
@@ -246,7 +246,7 @@ _p('C14', ['I', 'B3', 'B2', 'N2a', 'A9'],
    explanation="Dimension (unit) analysis over array_.py, atomicity path rule for in-place helpers, guard check on the "
                "only writer of Array._dtype.")
 
-_p('C20', ['M', 'D1', 'N1', 'N2', 'N2a', 'N3', 'N4', 'N5', 'A5', 'B1', 'POSW', 'E7', 'E8', 'H1', 'OPT', 'A1'],
+_p('C20', ['M', 'D1', 'D5', 'N1', 'N2', 'N2a', 'N3', 'N4', 'N5', 'A5', 'B1', 'POSW', 'E7', 'E8', 'H1', 'OPT', 'A1'],
    decided=["never an internal error class: AttributeError (every self.<attr> of every method resolves in every concrete "
             "class), AssertionError (29 asserts: facts at public call sites or reviewed reason), ZeroDivisionError "
             "(all divisions), KeyError (struct-code regexes cover the table lookups), NameError (all globals "
